@@ -54,6 +54,23 @@ func cyclicObject(k int) (map[string]interface{}, func() bool) {
 		s[1] = s
 		root["child"] = s
 		return root, func() bool { c, ok := root["child"].([]interface{}); return ok && len(c) == 2 && c[0] == 1 }
+	case 6, 7, 8:
+		// a long ring: 100 (1000, 5000) maps / slices each holding the next, the last one holding the first again
+		n := map[int]int{6: 100, 7: 1000, 8: 5000}[k]
+		first := map[string]interface{}{"i": 0}
+		cur := first
+		for i := 1; i < n; i++ {
+			next := map[string]interface{}{"i": i}
+			if i%2 == 0 {
+				cur["next"] = next
+			} else {
+				cur["next"] = []interface{}{next}
+			}
+			cur = next
+		}
+		cur["next"] = first
+		root["child"] = first
+		return root, func() bool { c, ok := root["child"].(map[string]interface{}); return ok && len(c) == 2 && c["i"] == 0 && len(root) == 2 }
 	default:
 		n := &cycNode{Name: "n"}
 		n.Next = n
